@@ -139,7 +139,9 @@ _SP = None
 def spelling_for(i):
     global _SP
     if _SP is None:
-        _SP = list(G.spellings("quick"))
+        # (without the spelling that writes an empty element as white space between its tags: whether that reads as
+        # "no text" or as "empty text" is left open by C03's normalisation and is not the client's business)
+        _SP = [sp for sp in G.spellings("quick") if sp.empty != 3]
     return _SP[i % len(_SP)]
 
 
